@@ -42,6 +42,8 @@ def get(name):
         return P(script="unicode", n_apps=1)
     if name == "holes":         # C04: size classes filled by explicit claims (numeric and decoys), holes, then allocate
         return P(script="holes", n_apps=2)
+    if name == "late-sweep":        # C05 C12: subscribers across late / failing sweeps, several apps
+        return P(script=name, n_apps=3)
     if name.startswith("scale-"):   # far beyond the ranges of the random walk (scripts.py)
         return P(script=name, n_apps=1)
     raise KeyError(name)
@@ -61,7 +63,7 @@ def cfg_for(name, seed):
                 {"allow_list": False, "usage": False, "blur": 60}, {"allow_list": True, "usage": True, "blur": 3600}][seed % 4]
     if name in ("scale-time",):      # usage database on (C15), with and without blur
         return USAGE_CFGS[seed % len(USAGE_CFGS)]
-    if name.startswith("scale-"):
+    if name.startswith("scale-") or name == "late-sweep":
         return G.CONFIGS[seed % len(G.CONFIGS)]
     if name.startswith("holes"):     # listing allowed and disallowed, usage on and off, in turn
         return G.CONFIGS[seed % len(G.CONFIGS)]
